@@ -132,15 +132,18 @@ def lookup (k : Int) : GoMap → Option Int
 /-- the values stored under `k` in the maps of the slice, in slice order -/
 def keyVals (k : Int) (ms : List GoMap) : List Int := ms.filterMap (lookup k)
 
-/-- By-key minimum.  `isErr` = an error came back, `v` = the value that came with it. -/
+/-- By-key minimum.  `isErr` = an error came back, `v` = the value that came with it: an error exactly when NO map of
+the slice holds the key (in particular for the empty slice), with the zero value; otherwise the minimal one of the values
+stored under the key.  (Until /repo's repair of F44 the code — and this specification — also answered with an error when
+only the FIRST map lacked the key, although an extremal element existed.) -/
 def IsMinByKey (ms : List GoMap) (k : Int) (isErr : Bool) (v : Int) : Prop :=
-  (ms = [] → v = 0) ∧
-  (isErr = true → ms = [] ∨ ∃ m ∈ ms, lookup k m = none) ∧
-  (isErr = false → ms = [] ∨ (v ∈ keyVals k ms ∧ ∀ x ∈ keyVals k ms, v ≤ x))
+  (isErr = true ↔ keyVals k ms = []) ∧
+  (isErr = true → v = 0) ∧
+  (isErr = false → v ∈ keyVals k ms ∧ ∀ x ∈ keyVals k ms, v ≤ x)
 def IsMaxByKey (ms : List GoMap) (k : Int) (isErr : Bool) (v : Int) : Prop :=
-  (ms = [] → v = 0) ∧
-  (isErr = true → ms = [] ∨ ∃ m ∈ ms, lookup k m = none) ∧
-  (isErr = false → ms = [] ∨ (v ∈ keyVals k ms ∧ ∀ x ∈ keyVals k ms, x ≤ v))
+  (isErr = true ↔ keyVals k ms = []) ∧
+  (isErr = true → v = 0) ∧
+  (isErr = false → v ∈ keyVals k ms ∧ ∀ x ∈ keyVals k ms, x ≤ v)
 instance (ms k e v) : Decidable (IsMinByKey ms k e v) := by unfold IsMinByKey; infer_instance
 instance (ms k e v) : Decidable (IsMaxByKey ms k e v) := by unfold IsMaxByKey; infer_instance
 
